@@ -228,8 +228,15 @@ def tfRun (j : Json) : R Json := do
       let rel ← getBool so "rel"
       let decay ← getF so "decay"
       if rank = 0 ∨ freq = 0 then throw "invalid sketchy options"
+      -- `memory_alloc`: per-axis ranks of this leaf (axes of the MERGED shape); absent: the global rank
+      let ranks : Option (List Nat) ← match so.getObjVal? "ranks" with
+        | .ok (.arr a) => do pure (some (← a.toList.mapM asNat))
+        | _ => pure none
+      let rankOf : Nat → Nat := match ranks with
+        | some l => fun a => l.getD a rank
+        | none => fun _ => rank
       let dir := secondOrderTx (P := List Float) mergeDims 0 shape fun ps =>
-        sketchyTx svdK Float.sqrt pwK eps rel decay rank freq ps
+        sketchyTx svdK Float.sqrt pwK eps rel decay rankOf freq ps
       pure (runWith dir gopts mom lr shape steps, 0)
     | s => throw s!"unknown second-order kind {s}"
   let s := deriveShapes mergeDims bs shape
